@@ -35,6 +35,10 @@ type Mod struct {
 	Includes []string
 	Rev      string // revision date ("" = none): the module is then registered under name and name@rev
 	Body     []*S
+	// BelongsPfx: for a submodule, the prefix its belongs-to statement declares ("" = the owner's
+	// name). It is the only way the submodule can name its module's definitions; the prefix the
+	// owner declares for itself is not in scope there and may be bound to an import.
+	BelongsPfx string
 }
 
 func Leaf(n, t string) *S              { return &S{Kind: "leaf", Name: n, Type: t} }
@@ -108,7 +112,11 @@ func Render(s *S) string {
 func (m *Mod) Text() string {
 	var sb strings.Builder
 	if m.Owner != "" {
-		fmt.Fprintf(&sb, "submodule %s { belongs-to %s { prefix %s; }", m.Name, m.Owner, m.Owner)
+		bp := m.BelongsPfx
+		if bp == "" {
+			bp = m.Owner
+		}
+		fmt.Fprintf(&sb, "submodule %s { belongs-to %s { prefix %s; }", m.Name, m.Owner, bp)
 	} else {
 		fmt.Fprintf(&sb, `module %s { namespace "urn:%s"; prefix %s;`, m.Name, m.Name, m.Name)
 	}
@@ -199,6 +207,14 @@ func NewWorld(mods ...*Mod) *World {
 	return w
 }
 
+// ownPrefix is the prefix under which the text of m names its own module.
+func (w *World) ownPrefix(m *Mod) string {
+	if m.Owner != "" && m.BelongsPfx != "" {
+		return m.BelongsPfx
+	}
+	return w.ownerName(m)
+}
+
 func (w *World) ownerName(m *Mod) string {
 	if m.Owner != "" {
 		return m.Owner
@@ -248,7 +264,7 @@ func (w *World) imports(m *Mod, pfx string) *Mod {
 
 func (w *World) findGrouping(sc *scope, name string) (*S, *scope) {
 	pfx, base := split(name)
-	if pfx == "" || pfx == w.ownerName(sc.mod) {
+	if pfx == "" || pfx == w.ownPrefix(sc.mod) {
 		for s := sc; s != nil; s = s.parent {
 			if g, ok := s.groupings[base]; ok {
 				return g, s
@@ -281,7 +297,7 @@ func (w *World) resolveType(sc *scope, name string) (kind, first string, ok bool
 			return base, first, true
 		}
 		found := false
-		if pfx == "" || pfx == w.ownerName(sc.mod) {
+		if pfx == "" || pfx == w.ownPrefix(sc.mod) {
 			for s := sc; s != nil && !found; s = s.parent {
 				if t, ok := s.typedefs[base]; ok {
 					name, sc, found = t, s, true
@@ -377,7 +393,7 @@ func (w *World) find(ctx *Mod, path string, create bool) *E {
 		pfx, base := split(p)
 		if i == 0 {
 			var m *Mod
-			if pfx == "" || pfx == w.ownerName(ctx) {
+			if pfx == "" || pfx == w.ownPrefix(ctx) {
 				m = w.Mods[w.ownerName(ctx)]
 			} else {
 				m = w.imports(ctx, pfx)
